@@ -121,6 +121,12 @@ def catalogue():
         branch("b1", [step("s11", [irq("a1")])], **{"if": "c1"}),
         branch("b2", [step("s21", [irq("a2")])], **{"else": True}),
     ], catches=[catch([step("cs1", [irq("ca1")])], on="e1")]), step("s2", [irq("a3")])]), {"c1": "$bool"})
+    C["catch_nested_par"] = (wf("m", [step("s1", branches=[
+        branch("b1", [step("s11", [irq("a1")])], **{"if": "c1"}),
+        branch("b2", [step("s21", [irq("a2", catches=[catch([step("cs2", [irq("ca2")])], on="e1")])])], **{"if": "c2"}),
+    ], catches=[catch([step("cs1", [irq("ca1")])])]), step("s2", [irq("a3")])]), {"c1": "$bool", "c2": "$bool"})
+    C["catch_in_catch"] = (wf("m", [step("s1", [irq("a1")], catches=[catch([step("cs1", [irq("ca1", catches=[catch([step("cs2", [irq("ca2")])], on="e2")])])])]),
+                                    step("s2", [irq("a3")])]), {})
     C["catch_none"] = (wf("m", [step("s1", [irq("a1"), irq("a2")]), step("s2", [irq("a3")])]), {})
     C["catch_all_and_code"] = (wf("m", [step("s1", [irq("a1", catches=[catch([step("cs1", [irq("ca1")])]), catch([step("cs2", [irq("ca2")])], on="e1")])]),
                                         step("s2", [irq("a3")])]), {})
